@@ -84,6 +84,7 @@ Lemma do_event_J d s e dur s1 r : J s -> do_event d s e dur = (s1, r) -> J s1 /\
 Proof.
   intros HJ. unfold do_event.
   destruct (target d s e) as [[nxt|]|[]]; try (intros H; inversion H; subst; auto; fail).
+  destruct (leaving_fails d s); [intros H; inversion H; subst; auto|].
   destruct (stop_timer_nolive s HJ) as (HN & _ & Hnow & _).
   destruct (enter_chain (chain_limit (t_fsm d)) d (stop_timer s) nxt dur) as [s2 [k|]] eqn:E;
     destruct (enter_chain_J _ _ _ _ _ _ _ HN E) as [A B]; intros H; inversion H; subst.
